@@ -65,6 +65,7 @@ type ErrPlan struct {
 	CtxKind   int         // 1 context.Canceled, 2 context.DeadlineExceeded, 3/4 the same wrapped with %w
 	WrapCtx   int         // coded error whose cause wraps a context error of a sub-operation: 1 context.Canceled, 2 context.DeadlineExceeded
 	Shared    bool        // a sentinel: every call that shares this plan returns the very same error value
+	Wrapped   bool        // the coded error is returned wrapped: fmt.Errorf("...: %w", connectErr)
 	built     error
 }
 
